@@ -123,8 +123,16 @@ impl McGroupStatusAnsCreator {
     }
 
     pub fn push(&mut self, group_id: u8, mc_addr: McAddr) -> Result<&mut Self, Error> {
+        // at most MAX_GROUPS groups, each id once: anything else would corrupt NbTotalGroups or
+        // make the answer longer than its own AnsGroupMask announces
+        if group_id as usize >= MAX_GROUPS || self.items >= MAX_GROUPS {
+            return Err(Error::InvalidIndex);
+        }
         // update bitmask in status byte
         let bm = 1 << group_id;
+        if self.data[1] & bm != 0 {
+            return Err(Error::InvalidIndex);
+        }
         self.data[1] |= bm;
         let offset = 2 + self.items * McGroupStatusItem::len();
         self.data[offset] = group_id;
